@@ -39,6 +39,22 @@
 #include <unistd.h>
 #endif
 
+namespace {
+// Move every entry of `from` into `to` (an entry of `from` replaces an entry
+// of `to` with the same key).  Map nodes are spliced, not copied, so pointers
+// to the moved values (reference parameters keep such pointers) stay valid.
+template <typename Map> void splice_map_entries(Map &from, Map &to) {
+    while (!from.empty()) {
+        auto node = from.extract(from.begin());
+        auto existing = to.find(node.key());
+        if (existing != to.end()) {
+            to.erase(existing);
+        }
+        to.insert(std::move(node));
+    }
+}
+} // namespace
+
 int64_t ExpressionEvaluator::evaluate_function_call_impl(const ASTNode *node) {
     if (interpreter_.is_debug_mode()) {
         std::cerr << "[DEBUG_IMPL] evaluate_function_call_impl called for: "
@@ -66,6 +82,14 @@ int64_t ExpressionEvaluator::evaluate_function_call_impl(const ASTNode *node) {
                               << std::endl;
                 }
 
+                // 引数は呼び出し側の文脈で先にすべて評価する
+                // (all arguments are evaluated before any parameter is bound)
+                std::vector<int64_t> lambda_arg_values;
+                for (const auto &lambda_arg : node->arguments) {
+                    lambda_arg_values.push_back(
+                        evaluate_expression(lambda_arg.get()));
+                }
+
                 // 新しいスコープを作成してパラメータをバインド
                 interpreter_.push_interpreter_scope();
 
@@ -80,8 +104,7 @@ int64_t ExpressionEvaluator::evaluate_function_call_impl(const ASTNode *node) {
 
                 for (size_t i = 0; i < lambda_node->parameters.size(); ++i) {
                     const ASTNode *param = lambda_node->parameters[i].get();
-                    int64_t arg_value =
-                        evaluate_expression(node->arguments[i].get());
+                    int64_t arg_value = lambda_arg_values[i];
 
                     Variable var;
                     var.type = param->type_info;
@@ -178,6 +201,14 @@ int64_t ExpressionEvaluator::evaluate_function_call_impl(const ASTNode *node) {
             interpreter_.current_scope().function_pointers[temp_lambda_name] =
                 lambda_fp;
 
+            // 引数は呼び出し側の文脈で先にすべて評価する
+            // (all arguments are evaluated before any parameter is bound)
+            std::vector<int64_t> lambda_arg_values;
+            for (const auto &lambda_arg : node->arguments) {
+                lambda_arg_values.push_back(
+                    evaluate_expression(lambda_arg.get()));
+            }
+
             // 新しいスコープを作成してラムダを実行
             interpreter_.push_scope();
 
@@ -192,8 +223,7 @@ int64_t ExpressionEvaluator::evaluate_function_call_impl(const ASTNode *node) {
 
             for (size_t i = 0; i < lambda_node->parameters.size(); ++i) {
                 const ASTNode *param = lambda_node->parameters[i].get();
-                int64_t arg_value =
-                    evaluate_expression(node->arguments[i].get());
+                int64_t arg_value = lambda_arg_values[i];
 
                 Variable var;
                 var.type = param->type_info;
@@ -4706,7 +4736,51 @@ int64_t ExpressionEvaluator::evaluate_function_call_impl(const ASTNode *node) {
             }
         }
 
+        // Explicit arguments are evaluated in the CALLER's context.  While
+        // they are being bound, everything the callee's frame already holds
+        // (self, the parameters bound so far) is parked in `callee_frame`,
+        // outside the scope stack, so that it cannot shadow the caller's
+        // variables: in `gcd(b, a % b)` the second argument must see the
+        // caller's `a`, not the parameter `a` that was just bound.  The
+        // caller's function name stays current as well, so that the caller's
+        // static locals resolve.  The frame is put back before the default
+        // values of omitted parameters are evaluated and before the body
+        // runs.  The scope stack keeps its depth the whole time, so the
+        // error paths below still pop exactly the scope pushed above.
+        Scope callee_frame;
+        bool callee_frame_parked = false;
+        auto park_callee_frame = [&]() {
+            Scope &top = interpreter_.current_scope();
+            splice_map_entries(top.variables, callee_frame.variables);
+            splice_map_entries(top.functions, callee_frame.functions);
+            splice_map_entries(top.function_pointers,
+                               callee_frame.function_pointers);
+            interpreter_.current_function_name = prev_function_name;
+            callee_frame_parked = true;
+        };
+        auto restore_callee_frame = [&]() {
+            if (!callee_frame_parked) {
+                return;
+            }
+            Scope &top = interpreter_.current_scope();
+            splice_map_entries(top.variables, callee_frame.variables);
+            splice_map_entries(top.functions, callee_frame.functions);
+            splice_map_entries(top.function_pointers,
+                               callee_frame.function_pointers);
+            top.variables.swap(callee_frame.variables);
+            top.functions.swap(callee_frame.functions);
+            top.function_pointers.swap(callee_frame.function_pointers);
+            interpreter_.current_function_name = node->name;
+            callee_frame_parked = false;
+        };
+
         for (size_t i = 0; i < num_params; i++) {
+            if (i < num_args) {
+                park_callee_frame();
+            } else {
+                restore_callee_frame();
+            }
+
             const auto &param_orig = func->parameters[i];
 
             // ジェネリック型パラメータを解決
@@ -5706,6 +5780,8 @@ int64_t ExpressionEvaluator::evaluate_function_call_impl(const ASTNode *node) {
                 }
             }
         }
+
+        restore_callee_frame();
 
         // implメソッド呼び出しの場合、implコンテキストを設定
         if (is_method_call && !receiver_name.empty()) {
